@@ -1220,6 +1220,8 @@ func (ps *parser) parsePostfix(modItem bool) (*Expr, error) {
 				var err error
 				if typeArgFuncs[t.text] && (len(call.Args) >= 1 || t.text == "tagof" || t.text == "zero" || t.text == "zeroarr") {
 					a, err = ps.parseRawType()
+				} else if modItem {
+					a, err = ps.parsePostfix(true)
 				} else {
 					a, err = ps.parseExpr()
 				}
